@@ -198,6 +198,26 @@ def run(M, rep, tier, only=None):
                                  site=init.file + ":%d" % init.node.lineno, detail=describe_path(p)):
                     break
         rep.stats["init_cells"] = {str(k): sorted(map(str, v)) for k, v in seen.items()}
+        # an existing file is not written to before its header was accepted; a refused one is left exactly as it was
+        badw = None
+        nopen = 0
+        for p in paths:
+            opens = [e for e in p.events if e.kind == "raw" and e.op == "h5py.h5f.open"]
+            if not opens:
+                continue
+            nopen += 1
+            hdr_reads = [e for e in p.events if e.kind in ("raw", "layer") and c4.fx.key(e) in ("format", "version") and not c4.fx.is_write(e)]
+            ws = [e for e in p.events if c4.fx.is_observable_write(e) or (e.kind == "raw" and c4.fx.is_write(e)) or (
+                e.kind == "layer" and e.op.split(".")[-1] in ("open_group", "__init__") and e.kw.get("create") is not None and
+                is_const(e.kw["create"]) and e.kw["create"].t[1])]
+            if p.terminal[0] == "raise" and p.terminal[1].cls in ("InvalidFile", "RuntimeError") and p.terminal[1].explicit:
+                early = [e for e in ws if e.idx < p.terminal[1].nevents]
+                if early:
+                    badw = (p, "an existing file that is refused (%s) was already written to (%s)" % (p.terminal[1].cls, early[0].brief()[:80]))
+            elif ws and (not hdr_reads or min(e.idx for e in ws) < min(e.idx for e in hdr_reads)):
+                badw = (p, "an existing file is written to (%s) before its format tag / version were checked" % ws[0].brief()[:80])
+        rep.check(R4, "header check precedes writes", badw is None and nopen > 0, badw[1] if badw else "no opening path",
+                  site=init.file + ":%d" % init.node.lineno, detail=describe_path(badw[0]) if badw else None)
 
     # ---------------- R5
     ctx = Ctx(M)
